@@ -235,11 +235,15 @@ fn exec_with(v: &Value, f: impl Fn(&RunCtx, &mut Outcome)) -> Outcome {
         Ok(s) => s,
         Err(e) => return Outcome::skip(&e),
     };
-    match execute_run(&sc, None) {
+    let listener = v["with_listener"] == true;
+    match crate::runworld::execute_run_with(&sc, None, listener) {
         Prepared::Skip(r) => Outcome::skip(&r),
         Prepared::Ctx(ctx) => {
             let mut out = Outcome::default();
             base_trace(&ctx, &mut out);
+            if listener {
+                out.fault("log_tail_listener_attached_to_the_run", 1);
+            }
             f(&ctx, &mut out);
             let groups: Vec<usize> = ctx.trace.result_json().map(|d| result_groups(&d).iter().map(|r| r.1.len()).collect()).unwrap_or_default();
             out.signature = format!("{:?}|{:?}|{:?}|{}", ctx.sc.spec.targets.iter().map(|t| (&t.path, &t.uses)).collect::<Vec<_>>(), groups, ctx.sc.script.strategy, ctx.trace.log.len());
@@ -259,7 +263,11 @@ impl Property for C04 {
         }
     }
     fn generate(&self, seed: u64, idx: usize, tier: Tier) -> Value {
-        to_val(&gen_c04(seed, idx, tier))
+        let mut v = to_val(&gen_c04(seed, idx, tier));
+        // one run in four has a `log tail` listener attached: ordering must not depend on who is listening
+        let mut rng = Rng::new(scenario_seed(seed, "C04l", idx));
+        v["with_listener"] = json!(rng.chance(1, 4));
+        v
     }
     fn execute(&self, v: &Value) -> Outcome {
         exec_with(v, check_c04)
@@ -267,14 +275,18 @@ impl Property for C04 {
     fn shrink(&self, v: &Value) -> Vec<Value> {
         from_val(v)
             .map(|s| {
-                shrink_run_scenario(&s)
-                    .iter()
-                    .map(|c| {
-                        let mut x = to_val(c);
-                        x["with_listener"] = v["with_listener"].clone();
-                        x
-                    })
-                    .collect()
+                let mut c: Vec<Value> = vec![];
+                if v["with_listener"] == true {
+                    let mut x = v.clone();
+                    x["with_listener"] = json!(false);
+                    c.push(x);
+                }
+                c.extend(shrink_run_scenario(&s).iter().map(|c| {
+                    let mut x = to_val(c);
+                    x["with_listener"] = v["with_listener"].clone();
+                    x
+                }));
+                c
             })
             .unwrap_or_default()
     }
